@@ -126,7 +126,10 @@ func (n *Node) State() (*xp.State, error) {
 }
 
 func (n *Node) Query(qs []xp.Query) ([]xp.Answer, error) {
-	r, err := n.call(&xp.Req{Op: "node-query", Queries: qs, N: 10000}, 60*time.Second)
+	// bound on an answer: 60 s. Properties that use this rig are not about
+	// latency; under 16 loaded shards a follower that is rebuilding its
+	// 1.15 GB cache after a state transfer has been seen to take > 10 s.
+	r, err := n.call(&xp.Req{Op: "node-query", Queries: qs, N: 60000}, 150*time.Second)
 	if err != nil {
 		return nil, err
 	}
